@@ -6,7 +6,8 @@
 From DV Require Import Base.Prelude Model.CacheM.
 From DV Require Import Proofs.CacheRing Proofs.CacheDict Proofs.CacheLru Proofs.CacheSpec
   Proofs.CacheThm Proofs.CacheSimple Proofs.CacheBasic Proofs.CacheWalk Proofs.CacheConc Proofs.CacheOrder Proofs.CacheGuard.
-From DV Require Model.CacheSkel.
+From DV Require Model.CacheSkel Model.ResolM Proofs.ResolChain.
+From DV Require Import Model.CacheAnsM Proofs.CacheExpiry.
 
 (* ---- never stale: a lookup returns an answer only if its expiration is strictly later than the
    last clock reading of that lookup (any state, any clock) *)
@@ -19,6 +20,31 @@ Theorem never_stale_lru : forall key c k v c' k',
   lru_step (Get key) c k = Ok (RAns v, c', k') -> now k' < a_exp v.
 Proof. exact lru_get_fresh. Qed.
 Print Assumptions never_stale_lru.
+
+(* ---- never stale, from the message: Answer.expiration = clock reading at construction +
+   minimum_ttl of QueryMessage.resolve_chaining (Model/ResolM.v, property C16).  The expiration
+   of an answer built from response m at reading t is at most t + the TTL of every CNAME RRset
+   followed, of the answer RRset, and for a negative answer of the enclosing SOA and its MINIMUM;
+   hence a lookup returning it happens strictly inside all those lifetimes. *)
+Theorem answer_expiration_from_message : forall m vid t v,
+  answer_of_msg m vid t = Ok v ->
+  a_id v = vid /\ within_record_lifetimes m t (a_exp v).
+Proof. exact answer_expiration_spec. Qed.
+Print Assumptions answer_expiration_from_message.
+
+Theorem lru_serves_only_within_record_lifetimes : forall m vid t v key c k c' k',
+  answer_of_msg m vid t = Ok v ->
+  lru_step (Get key) c k = Ok (RAns v, c', k') ->
+  within_record_lifetimes m t (now k' + 1).
+Proof. exact lru_serves_within_lifetimes. Qed.
+Print Assumptions lru_serves_only_within_record_lifetimes.
+
+Theorem cache_serves_only_within_record_lifetimes : forall m vid t v key c k c' k',
+  answer_of_msg m vid t = Ok v ->
+  cache_step (Get key) c k = Ok (RAns v, c', k') ->
+  within_record_lifetimes m t (now k' + 1).
+Proof. exact cache_serves_within_lifetimes. Qed.
+Print Assumptions cache_serves_only_within_record_lifetimes.
 
 (* ---- every history of an LRUCache runs without KeyError/AttributeError/fuel exhaustion *)
 Theorem lru_total : forall m t0 its, mono its ->
@@ -314,3 +340,18 @@ Example old_set_max_size_broke_the_bound :
   | _ => False
   end.
 Proof. vm_compute. split; reflexivity. Qed.
+
+(* a response with a CNAME (TTL 30) to an A RRset (TTL 20): the answer built at reading 1000
+   expires at 1020 *)
+Definition ex_msg : ResolM.msg :=
+  {| ResolM.m_qr := true; ResolM.m_rcode := 0;
+     ResolM.m_question := [ {| ResolM.q_name := [[107;49]; []]; ResolM.q_class := 1; ResolM.q_type := 1 |} ];
+     ResolM.m_answer :=
+       [ {| ResolM.rs_name := [[107;49]; []]; ResolM.rs_class := 1; ResolM.rs_type := 5; ResolM.rs_ttl := 30;
+            ResolM.rs_data := [ResolM.DName [[99;48]; []]] |};
+         {| ResolM.rs_name := [[99;48]; []]; ResolM.rs_class := 1; ResolM.rs_type := 1; ResolM.rs_ttl := 20;
+            ResolM.rs_data := [ResolM.DOther 7] |} ];
+     ResolM.m_authority := [] |}.
+
+Example ex_answer_of_msg : answer_of_msg ex_msg 5 1000 = Ok (mkAns 5 1020).
+Proof. vm_compute. reflexivity. Qed.
